@@ -150,9 +150,10 @@ func modelInt(v string) (int64, bool) {
 }
 
 type solveJob struct {
-	name string
-	text string
-	res  SolveResult
+	name  string
+	text  string
+	res   SolveResult
+	cover bool // vacuity guard: any answer other than unsat is fine, no need to try further back ends
 }
 
 // solveAll discharges the queries in parallel. mode "quick": z3-new first, the others only if it is undecided.
@@ -189,7 +190,7 @@ func solveAll(dir string, jobs []*solveJob, tier string, timeoutS int, workers i
 				}
 				file2 := file
 				if s == "cvc5" {
-					file2 = file + ".cvc5"
+					file2 = strings.TrimSuffix(file, ".smt2") + ".cvc5.smt2"
 					os.WriteFile(file2, []byte("(set-logic ALL)\n"+text), 0o644)
 					defer os.Remove(file2)
 				}
@@ -197,6 +198,9 @@ func solveAll(dir string, jobs []*solveJob, tier string, timeoutS int, workers i
 				tried = append(tried, fmt.Sprintf("%s:%s:%.2fs", s, r.Status, r.Seconds))
 				results = append(results, r)
 				if tier == "quick" && (r.Status == "unsat" || r.Status == "sat") {
+					break
+				}
+				if j.cover && (r.Status == "unknown" || r.Status == "sat" || r.Status == "unsat") {
 					break
 				}
 			}
